@@ -112,6 +112,51 @@ def _prefilled_ops(ttl: int, cap: int) -> Any:
     )
 
 
+def _expired_refresh_ops(ttl: int, cap: int) -> Any:
+    """A few nonces, a jump past the TTL, some of them presented *again* (expired, so accepted afresh), then new
+    nonces up to and just past the capacity, then the refreshed ones once more inside their new window.
+
+    Reaches bookkeeping that only matters when an expired entry is re-accepted in place (position vs. expiry)."""
+    return st.builds(
+        lambda p, jump, again, gap, fresh, tail: (
+            [["n", i] for i in range(p)]
+            + [["adv", jump]]
+            + [["n", i] for i in again if i < p]
+            + [x for k in range(fresh) for x in (["adv", gap], ["n", _NONCE_IDS - 1 - k])][: 2 * fresh]
+            + [["adv", gap]]
+            + [["n", i] for i in tail if i < p]
+        ),
+        st.integers(1, max(1, cap)),
+        st.sampled_from(sorted({ttl, ttl + 1, 2 * ttl + 1})),
+        st.lists(st.integers(0, 3), min_size=1, max_size=3, unique=True),
+        st.sampled_from([0, 1]),
+        st.integers(0, 3),
+        st.lists(st.integers(0, 3), min_size=1, max_size=3),
+    )
+
+
+def _refresh_grid() -> Any:
+    import itertools
+
+    for ttl, cap in itertools.product((2, 30), (2, 3, 4)):
+        for p in range(1, cap + 1):
+            for jump, again, fresh, gap in itertools.product((ttl, ttl + 1), ((0,), (0, 1), (1,)), (1, 2, 3), (0, 1)):
+                if any(i >= p for i in again):
+                    continue
+                for tail in ((0,), (1,), (0, 1)):
+                    if any(i >= p for i in tail):
+                        continue
+                    ops = (
+                        [["n", i] for i in range(p)]
+                        + [["adv", jump]]
+                        + [["n", i] for i in again]
+                        + [x for k in range(fresh) for x in (["adv", gap], ["n", _NONCE_IDS - 1 - k])]
+                        + [["adv", gap]]
+                        + [["n", i] for i in tail]
+                    )
+                    yield {"via": "cache", "ttl": ttl, "capacity": cap, "threads": [ops], "schedule": None}
+
+
 def _race_cases() -> Any:
     @st.composite
     def build(draw: Any) -> dict[str, Any]:
@@ -140,7 +185,8 @@ def _history_cases(via: str) -> Any:
         ttl = draw(st.sampled_from(_TTLS))
         cap = draw(st.integers(1, 4))
         nonces = draw(st.integers(1, 5))
-        ops = draw(st.one_of(_ops(ttl, 14, nonces), _prefilled_ops(ttl, cap)))
+        ops = draw(st.sampled_from([0, 1, 2]).flatmap(
+            lambda w: [_ops(ttl, 14, nonces), _prefilled_ops(ttl, cap), _expired_refresh_ops(ttl, cap)][w]))
         case: dict[str, Any] = {"via": via, "ttl": ttl, "capacity": cap, "threads": [ops], "schedule": None}
         if via == "gate":
             case["ts_off"] = [draw(st.sampled_from(sorted({-ttl, -1, 0, 1, ttl - 1, ttl}))) for _ in range(_NONCE_IDS)]
@@ -343,3 +389,5 @@ def main(chk: Check) -> None:
     chk.explore("race", _race_cases(), run_case, quick=1600, thorough=40000)
     chk.explore("history", _history_cases("cache"), run_case, quick=800, thorough=12000)
     chk.explore("gate_window", _history_cases("gate"), run_case, quick=500, thorough=8000)
+    # small exhaustive grid of "expired entry re-accepted, then the cache fills" histories (sequential, no schedule)
+    chk.enumerate("refresh_grid", _refresh_grid(), run_case, limit=None if not chk.quick else 700)
